@@ -2,6 +2,7 @@ package props
 
 import (
 	"fmt"
+	eio "github.com/karagenc/socket.io-go/engine.io"
 	"sync/atomic"
 	"time"
 
@@ -175,9 +176,16 @@ func runC16(e *sim.Env) {
 		socks []sio.ClientSocket
 	}
 	clients := make([]*cs, nc)
+	// (half of the plans: every client is created from one Engine.IO configuration value, as an
+	// application with several clients does - what the configuration points to is shared then)
+	var sharedEIO *eio.ClientConfig
+	if p.Index%2 == 1 {
+		cfg := w.EIOClientConfig(0, world.ClientOpts{Transports: world.Transports(p.C("tr")), UpgradeTimeout: far})
+		sharedEIO = &cfg
+	}
 	for c := 0; c < nc; c++ {
 		c := c
-		m := w.NewManager(c, world.ClientOpts{Transports: world.Transports(p.C("tr")), UpgradeTimeout: far, NoReconnection: c%2 == 0})
+		m := w.NewManagerEIO(c, world.ClientOpts{Transports: world.Transports(p.C("tr")), UpgradeTimeout: far, NoReconnection: c%2 == 0}, sharedEIO)
 		m.OnError(func(error) {})
 		cl := &cs{mgr: m}
 		for _, name := range nsps {
